@@ -171,14 +171,14 @@ Print Assumptions C10_string_is_the_source.
 Theorem C10_wire_encoders_are_the_source :
   g_wire_progs = wire_progs /\
   (forall w v id buf i,
-     run_fill (prog (go_type w ++ ".fill")) (env_of w v id) buf i = wfill w v buf i /\
-     run_fill (prog (go_type w ++ ".fillProp")) (env_of w v id) buf i = wfill_prop w id v buf i /\
-     run_fill (prog (go_type w ++ ".width")) (env_of w v id) buf i = Some (buf, e_self_width (env_of w v id))) /\
+     run_fill (prog (go_type w ++ ".fill")) (wenv_of w v id) buf i = wfill w v buf i /\
+     run_fill (prog (go_type w ++ ".fillProp")) (wenv_of w v id) buf i = wfill_prop w id v buf i /\
+     run_fill (prog (go_type w ++ ".width")) (wenv_of w v id) buf i = Some (buf, e_self_width (wenv_of w v id))) /\
   (forall n id buf i,
-     run_fill (prog "Ident.fill") (env_of U8 (VN n) id) buf i = fill_u8 n buf i /\
-     run_fill (prog "Ident.fillProp") (env_of U8 (VN n) id) buf i = Some (buf, 0%nat) /\
-     run_fill (prog "Ident.width") (env_of U8 (VN n) id) buf i = Some (buf, 1%nat)) /\
-  (forall n id buf i, run_fill (prog "bits.fillOpt") (env_of U8 (VN n) id) buf i = fill_opt n buf i) /\
+     run_fill (prog "Ident.fill") (wenv_of U8 (VN n) id) buf i = fill_u8 n buf i /\
+     run_fill (prog "Ident.fillProp") (wenv_of U8 (VN n) id) buf i = Some (buf, 0%nat) /\
+     run_fill (prog "Ident.width") (wenv_of U8 (VN n) id) buf i = Some (buf, 1%nat)) /\
+  (forall n id buf i, run_fill (prog "bits.fillOpt") (wenv_of U8 (VN n) id) buf i = fill_opt n buf i) /\
   (forall kv id buf i,
      run_fill (prog "UserProp.fill") (env_userprop kv id) buf i = fill_userprop kv buf i /\
      run_fill (prog "UserProp.fillProp") (env_userprop kv id) buf i = fill_userprop_prop id kv buf i /\
@@ -196,7 +196,7 @@ Print Assumptions C10_wire_encoders_are_the_source.
    encoder at the position and report their number; without room they write
    nothing and still report it *)
 Theorem C10_wire_program_writes_encode : forall w v id buf i,
-  exists b', run_fill (prog (go_type w ++ ".fill")) (env_of w v id) buf i = Some (b', List.length (Wire.encode w v)) /\
+  exists b', run_fill (prog (go_type w ++ ".fill")) (wenv_of w v id) buf i = Some (b', List.length (Wire.encode w v)) /\
              List.length b' = List.length buf /\
              ((i + List.length (Wire.encode w v) <= List.length buf)%nat -> b' = put buf i (Wire.encode w v)).
 Proof. intros w v id buf i. rewrite wire_fill_is_prog. exact (wfill_ok w v buf i). Qed.
@@ -204,7 +204,7 @@ Print Assumptions C10_wire_program_writes_encode.
 
 (* non-vacuity: the regenerated wuint16.fill on a four-byte buffer at position 1 *)
 Example C10_wire_example :
-  run_fill (prog "wuint16.fill") (env_of U16 (VN 258) 0) [x00; x00; x00; x00] 1 = Some ([x00; x01; "002"%byte; x00], 2%nat)
-  /\ run_fill (prog "vbint.fill") (env_of Vb (VN 300) 0) [x00; x00; x00] 0 = Some (["172"%byte; "002"%byte; x00], 2%nat)
-  /\ run_fill (prog "vbint.fill") (env_of Vb (VN 300) 0) [] 0 = Some ([], 2%nat).
+  run_fill (prog "wuint16.fill") (wenv_of U16 (VN 258) 0) [x00; x00; x00; x00] 1 = Some ([x00; x01; "002"%byte; x00], 2%nat)
+  /\ run_fill (prog "vbint.fill") (wenv_of Vb (VN 300) 0) [x00; x00; x00] 0 = Some (["172"%byte; "002"%byte; x00], 2%nat)
+  /\ run_fill (prog "vbint.fill") (wenv_of Vb (VN 300) 0) [] 0 = Some ([], 2%nat).
 Proof. vm_compute. repeat split; reflexivity. Qed.
